@@ -170,7 +170,7 @@ fn c18_o1_client_mode_silent() {
     kani::assume(kind < 5);
     let from = SocketAddrV4::new([10, 0, 0, 7].into(), 6881);
     let ro: bool = kani::any();
-    let version: Option<[u8; 4]> = kani::any();
+    let version: Option<[u8; 4]> = if kani::any() { Some(kani::env()) } else { None };
     let (reply, repopulate) = core.handle_request(from, ro, version, any_request(kind, Id::from(T5)));
     let calls = unsafe { SERVER_CALLS.v };
     if !mode {
@@ -213,7 +213,7 @@ fn c18_o2_learning_from_requests() {
     kani::assume(kind < 5);
     let from = SocketAddrV4::new([10, 0, 0, 7].into(), 6881);
     let ro: bool = kani::any();
-    let version: Option<[u8; 4]> = kani::any();
+    let version: Option<[u8; 4]> = if kani::any() { Some(kani::env()) } else { None };
     let supports = match version {
         Some(v) => v[0] == b'R' && v[1] == b'S' && (v[2] > 0 || (v[2] == 0 && v[3] >= 6)),
         None => false,
